@@ -611,3 +611,16 @@ func eachCallCtx(fn *ssa.Function, visit func(call ssa.CallInstruction, lift fun
 	}
 	rec(fn, func(t *Term) *Term { return t }, false, 0)
 }
+
+// knownRootOf: the known function a new helper belongs to (following single call sites
+// upwards); the function itself when it is known or has several callers.
+func knownRootOf(fn *ssa.Function) *ssa.Function {
+	for d := 0; d < maxHelperDepth && isNewHelper(fn); d++ {
+		sites := callSitesOfHelper(fn)
+		if len(sites) != 1 {
+			return fn
+		}
+		fn = sites[0].Parent()
+	}
+	return fn
+}
